@@ -333,6 +333,85 @@ def b2f(s):
 
 
 # --------------------------------------------------------------------------------------
+# coverage of the property's anchored source lines (in-process part of a run only)
+# --------------------------------------------------------------------------------------
+
+_COVER = dict(on=False, lines={}, hit={})
+
+
+def _anchors(pid):
+    out = {}
+    for l in open(os.path.join(VERIF, "properties.jsonl")):
+        p = json.loads(l)
+        if p["id"] != pid:
+            continue
+        for m in p["anchors"].get("mechanism", []):
+            w = m.get("where", "")
+            for part in w.split(";"):
+                part = part.strip()
+                mm = re.match(r"(\S+\.py):(.*)", part)
+                if not mm:
+                    continue
+                f = mm.group(1)
+                for rng in mm.group(2).split(","):
+                    r = re.match(r"\s*(\d+)(?:-(\d+))?", rng)
+                    if r:
+                        a, b = int(r.group(1)), int(r.group(2) or r.group(1))
+                        out.setdefault(f, set()).update(range(a, b + 1))
+    return out
+
+
+def start_cover(ctx):
+    """record which anchored lines of the staged source execute in this process (each location reports once)"""
+    try:
+        import sys as _s
+        mon = _s.monitoring
+        anchors = _anchors(ctx.pid)
+        files = {os.path.join(ctx.stage, f): f for f in anchors}
+        _COVER.update(on=True, lines=anchors, hit={f: set() for f in anchors})
+        TOOL = 4
+        mon.use_tool_id(TOOL, "esrverif-cover")
+
+        def on_line(code, line):
+            f = files.get(code.co_filename)
+            if f is not None:
+                _COVER["hit"][f].add(line)
+            return mon.DISABLE
+
+        mon.register_callback(TOOL, mon.events.LINE, on_line)
+        mon.set_events(TOOL, mon.events.LINE)
+    except Exception:
+        _COVER["on"] = False
+
+
+def stop_cover(ctx):
+    if not _COVER["on"]:
+        return
+    try:
+        import sys as _s, ast as _ast
+        _s.monitoring.set_events(4, 0)
+        _s.monitoring.free_tool_id(4)
+        rep = {}
+        for f, lines in _COVER["lines"].items():
+            # only lines that hold executable statements count
+            try:
+                tree = _ast.parse(open(os.path.join(ctx.stage, f)).read())
+                stm = {n.lineno for n in _ast.walk(tree) if isinstance(n, _ast.stmt) and not (
+                    isinstance(n, _ast.Expr) and isinstance(getattr(n, "value", None), _ast.Constant))
+                       and not isinstance(n, (_ast.FunctionDef, _ast.ClassDef))}
+            except Exception:
+                stm = set(lines)
+            want = sorted(lines & stm)
+            hit = _COVER["hit"].get(f, set())
+            never = [l for l in want if l not in hit]
+            rep[f] = dict(anchored_statements=len(want), executed_in_process=len(want) - len(never), never_executed_in_process=never[:60])
+        ctx.extra["anchored_line_coverage"] = rep
+    except Exception:
+        pass
+    _COVER["on"] = False
+
+
+# --------------------------------------------------------------------------------------
 # known findings, decision, evidence
 # --------------------------------------------------------------------------------------
 
